@@ -71,6 +71,27 @@ class VariableComputationNode(ComputationNode):
                 return l.target
         return None
 
+    def _simple_repr(self):
+        # The order links (previous / next) are added by the graph after the
+        # node has been built and cannot be derived from the constructor
+        # arguments: they must be part of the repr.
+        r = super()._simple_repr()
+        r["order_links"] = simple_repr(
+            [l for l in self._links if isinstance(l, OrderLink)]
+        )
+        return r
+
+    @classmethod
+    def _from_repr(cls, r):
+        args = {
+            k: from_repr(v)
+            for k, v in r.items()
+            if k not in ["__qualname__", "__module__", "order_links"]
+        }
+        node = cls(**args)
+        node._links.extend(from_repr(r.get("order_links", [])))
+        return node
+
     def __eq__(self, other):
         if type(other) != VariableComputationNode:
             return False
